@@ -429,7 +429,14 @@ template <class V, class T, bool PORTABLE> struct Mach : MachBase
         else if (op == "inval")
         {
             BEGIN_EV;
-            v->invalidate();
+            // `invalidate()` is a public member that std::vector does not have: optional (round 3b); without it the
+            // same observable (every element destroyed, the block given back, the object empty) through a move
+            if constexpr (requires { v->invalidate(); })
+                v->invalidate();
+            else
+            {
+                V gone(std::move(*v));
+            }
             END_EV;
             mv = std::vector<int>();
         }
@@ -690,9 +697,18 @@ template <class V, class T, bool PORTABLE> struct Mach : MachBase
         }
         else if (op == "widths")
         { // type widths the model embeds (size_t counters: no wrap below 2^64), read out of the compiled code
+            // round 3b: the compared result carries what the property's observables are typed by (size(), capacity():
+            // 8-byte counters - the model's are unbounded naturals); difference_type / size_type / the object size
+            // in words are NOT fixed by the property: reported as tags, and the typedefs are optional
             char b[160];
-            snprintf(b, sizeof b, "size=%zu cap=%zu diff=%zu idx=%zu obj=%zu", sizeof(decltype(v->size())), sizeof(decltype(v->capacity())),
-                     sizeof(typename V::difference_type), sizeof(typename V::size_type), sizeof(V) / sizeof(void *));
+            snprintf(b, sizeof b, "size=%zu cap=%zu", sizeof(decltype(v->size())), sizeof(decltype(v->capacity())));
+            size_t dw = 0, iw = 0;
+            if constexpr (requires { typename V::difference_type; })
+                dw = sizeof(typename V::difference_type);
+            if constexpr (requires { typename V::size_type; })
+                iw = sizeof(typename V::size_type);
+            std::string t = "diff" + std::to_string(dw) + ",idx" + std::to_string(iw) + ",obj" + std::to_string(sizeof(V) / sizeof(void *));
+            o.tag(t.c_str());
             o.result = b;
             return false;
         }
